@@ -87,6 +87,9 @@ func (m *cafsMemWriterAt) Write(p []byte) (int, error) { // never used by cafs w
 	return m.WriteAt(p, int64(len(m.buf)))
 }
 
+// cafsSwitchStore forwards to a store that can be swapped (damage appearing under a live reader).
+type cafsSwitchStore struct{ *memstore.Store }
+
 type cafsPlainWriter struct{ b bytes.Buffer }
 
 func (w *cafsPlainWriter) Write(p []byte) (int, error) { return w.b.Write(p) }
@@ -545,8 +548,14 @@ func c03(c *ctx) error {
 				desc = fmt.Sprintf("kind=flip arg=%d", bit)
 			case 2:
 				to := r.Intn(len(cur))
-				if r.Intn(3) == 0 {
+				switch r.Intn(6) {
+				case 0:
 					to = 0
+				case 1: // boundaries: one key, all but the last key, one byte either side
+					to = r.Pick(1, 63, 64, 65, len(cur)-64, len(cur)-1, len(cur)-65, 128)
+				}
+				if to < 0 || to >= len(cur) {
+					to = len(cur) / 2
 				}
 				work.SetRaw(blobKey, cur[:to])
 				desc = fmt.Sprintf("kind=trunc arg=%d", to)
@@ -569,11 +578,35 @@ func c03(c *ctx) error {
 			}
 			c.w.Count(strings.Fields(desc)[0])
 			c.w.Note(fmt.Sprintf("fault obj=0 blob=%s %s", target, desc))
-			// observe through a FRESH cafs instance (no keys cache, no leaf cache)
-			rfs, _, err := cafsNewFs(work, leaf, r)
-			if err != nil {
-				continue
+			// observe through a FRESH cafs instance (no keys cache, no leaf cache) — or, every other
+			// fault, through a LONG-LIVED instance that read the healthy object (ReadAt, Read) before
+			// the damage happened: its key and leaf caches are warm
+			var rfs cafs.Fs
+			if f%2 == 1 {
+				sw := &cafsSwitchStore{Store: pristine}
+				lfs, _, e := cafsNewFs(pristine, leaf, r)
+				if e != nil {
+					continue
+				}
+				lfs, e = cafs.New(cafs.LeafSize(uint32(leaf)), cafs.Backend(sw), cafs.Logger(corekit.Nop), cafs.Prefetch(r.Intn(2)), cafs.CacheSize(64*leaf))
+				if e != nil {
+					continue
+				}
+				_ = cafsReadAt(lfs, objs[0].key, 0, len(objs[0].content))
+				_, _ = cafsReadAll(lfs, objs[0].key, []int{leaf})
+				sw.Store = work // the damage happens now
+				rfs = lfs
+				c.w.Count("reader=long-lived")
+			} else {
+				fresh, _, e := cafsNewFs(work, leaf, r)
+				if e != nil {
+					continue
+				}
+				rfs = fresh
+				c.w.Count("reader=fresh")
 			}
+			var err error
+			_ = err
 			ln := len(objs[0].content)
 			got := func(s string) string {
 				if strings.HasPrefix(s, "ok ") {
@@ -658,6 +691,14 @@ func c03Download(c *ctx, r *tr.Rng, i int) {
 			desc = "delete"
 		}
 		c.w.Count("download-fault=" + desc)
+		damaged := map[string]bool{}
+		if mb := corekit.NewBundle(env.Stores, "r", nil, 0, id); corekit.Recover(func() error { return core.DownloadMetadata(context.Background(), mb) }) == nil {
+			for _, en := range mb.BundleEntries {
+				if raw, ok := env.Blob.Raw(en.Hash); ok && strings.Contains(hex.EncodeToString(raw), k) {
+					damaged[en.NameWithPath] = true
+				}
+			}
+		}
 		for _, dstKind := range []string{"mem", "fs"} {
 			var got map[string][]byte
 			var derr error
@@ -672,7 +713,15 @@ func c03Download(c *ctx, r *tr.Rng, i int) {
 				// a failed Publish returns while the downloads of other files are still in flight:
 				// let them finish (two identical snapshots in a row) before judging the destination
 				got = c04ReadDir(dir)
-				for tries := 0; tries < 40; tries++ {
+				for tries := 0; tries < 200; tries++ {
+					// in-flight downloads of HEALTHY files (not sharing the damaged blob) finish on
+					// their own: wait for them, then for two identical snapshots in a row
+					pending := false
+					for n, b := range got {
+						if !damaged[n] && len(b) != len(files[n]) {
+							pending = true
+						}
+					}
 					time.Sleep(50 * time.Millisecond)
 					again := c04ReadDir(dir)
 					same := len(again) == len(got)
@@ -682,7 +731,7 @@ func c03Download(c *ctx, r *tr.Rng, i int) {
 						}
 					}
 					got = again
-					if same {
+					if same && !pending {
 						break
 					}
 				}
